@@ -1,12 +1,17 @@
+open BinInt
 open BinNums
 open Datatypes
 open List
 
 type tytag = coq_N
 
+type unop =
+| UNegative
+| UBitwiseComplement
+
 type expr =
 | EBinary of expr * expr
-| EUnary of expr
+| EUnary of unop * expr
 | EBool
 | ESigned of coq_Z * tytag option * coq_N
 | EBit of coq_Z * tytag option * coq_N
@@ -60,8 +65,13 @@ type decl =
 | DImport
 | DPoison
 
+type litkind =
+| KSigned
+| KBit
+| KNegBit
+
 type lintev =
-| EvLiteral of coq_N * bool * coq_Z * tytag option
+| EvLiteral of coq_N * litkind * coq_Z * tytag option
 | EvLoopFirst of coq_N * coq_N * coq_N
 
 type lstate = { st_naked : coq_N option; st_first : (coq_N * coq_N) option }
@@ -75,9 +85,18 @@ let st_default =
 
 let rec lint_expr = function
 | EBinary (l, r) -> app (lint_expr l) (lint_expr r)
-| EUnary e1 -> lint_expr e1
-| ESigned (v, ty, p) -> (EvLiteral (p, true, v, ty)) :: []
-| EBit (v, ty, p) -> (EvLiteral (p, false, v, ty)) :: []
+| EUnary (op, e1) ->
+  (match op with
+   | UNegative ->
+     (match e1 with
+      | EBit (v, ty, p) ->
+        (match ty with
+         | Some t -> (EvLiteral (p, KNegBit, v, (Some t))) :: []
+         | None -> lint_expr e1)
+      | _ -> lint_expr e1)
+   | UBitwiseComplement -> lint_expr e1)
+| ESigned (v, ty, p) -> (EvLiteral (p, KSigned, v, ty)) :: []
+| EBit (v, ty, p) -> (EvLiteral (p, KBit, v, ty)) :: []
 | EArray els0 -> flat_map lint_expr els0
 | EStructural ms -> flat_map lint_member ms
 | EParen e1 -> lint_expr e1
@@ -196,7 +215,7 @@ let lint_decl_in d st =
 let lint_decl d =
   snd (lint_decl_in d st_default)
 
-type litocc = { oc_pos : coq_N; oc_signed : bool; oc_val : coq_Z;
+type litocc = { oc_pos : coq_N; oc_kind : litkind; oc_val : coq_Z;
                 oc_ty : tytag option }
 
 (** val occ_key : litocc -> coq_N * tytag option **)
@@ -207,8 +226,8 @@ let occ_key o =
 (** val ev_occ : lintev -> litocc list **)
 
 let ev_occ = function
-| EvLiteral (p, sg, v, ty) ->
-  { oc_pos = p; oc_signed = sg; oc_val = v; oc_ty = ty } :: []
+| EvLiteral (p, k, v, ty) ->
+  { oc_pos = p; oc_kind = k; oc_val = v; oc_ty = ty } :: []
 | EvLoopFirst (_, _, _) -> []
 
 (** val visits_of : lintev list -> litocc list **)
@@ -245,6 +264,21 @@ let lint_checked d =
 let lint_positions d =
   map fst (lint_checked d)
 
+(** val range_test :
+    (tytag -> ((bool * coq_Z) * coq_Z) option) -> litkind -> coq_Z -> tytag
+    -> bool **)
+
+let range_test tbl k v t =
+  match tbl t with
+  | Some p ->
+    let (p0, mx) = p in
+    let (sg, mn) = p0 in
+    (match k with
+     | KSigned -> if Z.ltb v Z0 then Z.ltb v mn else Z.ltb mx v
+     | KBit -> Z.ltb mx v
+     | KNegBit -> if sg then Z.ltb (Z.add mx (Zpos Coq_xH)) v else Z.ltb mx v)
+  | None -> false
+
 (** val lint_decls_in : decl list -> lstate -> lstate * lintev list **)
 
 let rec lint_decls_in ds st =
@@ -263,11 +297,22 @@ let lint_module ds =
 
 let rec occs_expr = function
 | EBinary (l, r) -> app (occs_expr l) (occs_expr r)
-| EUnary e1 -> occs_expr e1
+| EUnary (op, e1) ->
+  (match op with
+   | UNegative ->
+     (match e1 with
+      | EBit (v, ty, p) ->
+        (match ty with
+         | Some t ->
+           { oc_pos = p; oc_kind = KNegBit; oc_val = v; oc_ty = (Some
+             t) } :: []
+         | None -> occs_expr e1)
+      | _ -> occs_expr e1)
+   | UBitwiseComplement -> occs_expr e1)
 | ESigned (v, ty, p) ->
-  { oc_pos = p; oc_signed = true; oc_val = v; oc_ty = ty } :: []
+  { oc_pos = p; oc_kind = KSigned; oc_val = v; oc_ty = ty } :: []
 | EBit (v, ty, p) ->
-  { oc_pos = p; oc_signed = false; oc_val = v; oc_ty = ty } :: []
+  { oc_pos = p; oc_kind = KBit; oc_val = v; oc_ty = ty } :: []
 | EArray l -> flat_map occs_expr l
 | EStructural ms -> flat_map occs_member ms
 | EParen e1 -> occs_expr e1
